@@ -87,6 +87,16 @@ def install(reg):
 
     M[abs] = m_abs
 
+    def m_divmod(interp, a, b):
+        # divmod(a, b) == (a // b, a % b) for ints and floats; the operators carry Python's floor semantics and the b == 0 path
+        if not contains_sym((a, b)):
+            return interp.native(divmod, a, b)
+        import operator as _op
+
+        return (interp.binop(_op.floordiv, a, b), interp.binop(_op.mod, a, b))
+
+    M[divmod] = m_divmod
+
     def _minmax(pick):
         def h(interp, *a, key=None, default=None):
             if key is not None or not contains_sym(a):
